@@ -35,6 +35,55 @@ def cms_cells(s):
     return refimpl.parse_cms(bytes(s))
 
 
+def wl_cms_big(ctx, rng, case):
+    """sketches of 80 000 .. 260 000 counters (several blocks of whatever size a merge might work in): keys near and beyond the limits in
+    BOTH operands, in every part of the table; after the join every counter is the clamped sum, the total is pinned, the argument is
+    unchanged, and the joined sketch survives export and load"""
+    import probables as P
+
+    width, depth = rng.choice([(20000, 4), (20000, 6), (65536, 2), (65537, 3), (33000, 8)])
+    cls = rng.choice([P.CountMinSketch, P.CountMeanSketch])
+    a, b = cls(width=width, depth=depth), cls(width=width, depth=depth)
+    ma, mb = [0] * (width * depth), [0] * (width * depth)
+    ta = tb = 0
+    keys = [f"big-{case.index}-{i}" for i in range(rng.randint(30, 80))]
+    for s_, m_, tag in ((a, ma, "a"), (b, mb, "b")):
+        for k in keys:
+            if rng.random() < 0.7:
+                n = amount(rng, I32MAX)
+                neg = rng.random() < 0.35
+                (s_.remove if neg else s_.add)(k, n)
+                for i, h in enumerate(s_.hashes(k)):
+                    c = (h % width) + i * width
+                    m_[c] = clamp(m_[c] + (-n if neg else n), I32MIN, I32MAX)
+                if tag == "a":
+                    ta = clamp(ta + (-n if neg else n), I64MIN, I64MAX)
+                else:
+                    tb = clamp(tb + (-n if neg else n), I64MIN, I64MAX)
+    case.desc = {"kind": "count-min big join", "width": width, "depth": depth, "cls": cls.__name__, "n_keys": len(keys)}
+    ctx.check(cms_cells(a)["cells"] == ma and cms_cells(b)["cells"] == mb, "counters of a big sketch differ from the saturating model before the join")
+    b_before = bytes(b)
+    a.join(b)
+    got = cms_cells(a)
+    bad = []
+    for i, (x, y) in enumerate(zip(ma, mb)):
+        ok = {clamp(x + y, I32MIN, I32MAX)}
+        if x in (I32MIN, I32MAX):
+            ok.add(x)
+        if got["cells"][i] not in ok:
+            bad.append((i, x, y, got["cells"][i]))
+    ctx.counters["oracle_evaluations"] += len(ma)
+    ctx.check(not bad, f"join of two {width}x{depth} sketches: counters are not the saturating sums", first=bad[:5], wrong=len(bad))
+    ctx.check(a.elements_added == clamp(ta + tb, I64MIN, I64MAX), "join of two big sketches: element total is not the pinned sum", got=a.elements_added, want=clamp(ta + tb, I64MIN, I64MAX))
+    ctx.check(bytes(b) == b_before, "join modified its argument")
+    data = bytes(a)
+    ctx.check(bytes(cls.frombytes(data)) == data, "export -> load -> export of a big joined sketch is not the identity")
+    ctx.count("big_joins")
+    ctx.count("cell_comparisons", len(ma))
+    ctx.count("joins")
+    case.nontrivial = any(c in (I32MIN, I32MAX) for c in got["cells"])
+
+
 def wl_cms(ctx, rng, case):
     import probables as P
 
@@ -290,6 +339,7 @@ PROP = Prop(
           "incl. hand-written ones sending all positions of a key to one cell. Non-trivial = some cell reached a limit; distinct by hash of (parameters, operations)."),
     workloads=[
         Workload("cms", wl_cms, quick=1500, thorough=500000),
+        Workload("cms_big", wl_cms_big, quick=5, thorough=60),
         Workload("cbf", wl_cbf, quick=1500, thorough=500000),
     ],
     assumptions=["a counting-Bloom cell addressed m times by one key may end anywhere between old+n and old+m*n (clamped): the library counts a position once per occurrence, a refactoring may count it once",
